@@ -2008,6 +2008,7 @@ fn main() {
 						run.extra("compaction_declined_example", json!(e));
 					}
 					run.count("chain_compaction_reorg_state_comparisons", st.state_comparisons);
+					run.count("chain_compaction_reorg_merkle_proofs_of_unspent_outputs_verified", st.merkle_proofs_verified);
 					if st.compaction_moved_tail {
 						run.count("chain_compaction_reorg_scenarios_with_effective_compaction", 1);
 					}
